@@ -3,4 +3,5 @@ INVARIANT Inv_Fxp
 INVARIANT Inv_FxpUn
 INVARIANT Inv_FxpNew
 INVARIANT Inv_FxpAssert
+INVARIANT Inv_IntFxpAssert
 CHECK_DEADLOCK FALSE
